@@ -100,6 +100,18 @@ func c03Input(r *fw.Rand) (string, string) {
 		rs := []rune(cont)
 		if len(rs) > 0 {
 			i := r.Intn(len(rs))
+			if r.Bool() {
+				// prefer the punctuation of the continuation
+				var punct []int
+				for k, c := range rs {
+					if strings.ContainsRune(":=*+-'&(),[]{}?", c) {
+						punct = append(punct, k)
+					}
+				}
+				if len(punct) > 0 {
+					i = punct[r.Intn(len(punct))]
+				}
+			}
 			rs[i] = []rune(r.Pick([]string{"：", "＝", "；", "，", "（", "）", "［", "｛", "＋", "－", "＊", "？", "！", " ", "\t", "#", "@", "~", "$", "\\"}))[0]
 			tail = string(rs)
 			sep := r.Pick([]string{" ", "", ",", ";", "\n"})
